@@ -1,5 +1,5 @@
 //@PROBE file=src/track/store.rs test=verif_probe_distances_c10 clauses=distances
-//@BOUND shard counts 1..=4, both only_baked settings, 300 pseudo-random store contents of 0..=7 tracks (0..=3 observations in each of two feature classes, a class sometimes missing, two compatibility groups, ready/pending/wasted status) x candidate batches of 1..=3 external tracks (one sharing an id with a stored track) and owned batches of 1..=3 stored ids; whatever worker schedule occurs (pairs among the owned candidates themselves are schedule dependent and not compared)
+//@BOUND shard counts 1..=4, both only_baked settings, 300 pseudo-random store contents of 0..=7 tracks (0..=3 observations in each of two feature classes, a class sometimes missing, two compatibility groups, ready/pending/wasted status; the metric's postprocess_distances either the identity or 'keep the closest observation pair of the batch handed over', which must be one (candidate, stored track) pair) x candidate batches of 1..=3 external tracks (one sharing an id with a stored track) and owned batches of 1..=3 stored ids; whatever worker schedule occurs (pairs among the owned candidates themselves are schedule dependent and not compared)
 #[cfg(test)]
 mod verif_probe_distances_c10 {
     // Bounded stand-in for the contract of the distance queries (worker threads, channels: no verifier reaches them).
@@ -18,8 +18,10 @@ mod verif_probe_distances_c10 {
         fn merge(&mut self, _o: &DAttrs) -> Result<()> { Ok(()) }
         fn baked(&self, _o: &ObservationsDb<f32>) -> Result<TrackStatus> { Ok(match self.status { 0 => TrackStatus::Ready, 1 => TrackStatus::Pending, _ => TrackStatus::Wasted }) }
     }
+    /// best_only: postprocess_distances keeps only the closest observation pair of the batch it is handed - the store
+    /// must hand it the results of ONE (candidate, stored track) pair at a time
     #[derive(Clone, Default)]
-    struct DMetric;
+    struct DMetric { best_only: bool }
     fn pair_value(l: f32, r: f32) -> Option<(Option<f32>, Option<f32>)> {
         // no value for pairs whose sum is a multiple of 5; otherwise (|l-r|, l*100+r)
         if ((l + r) as i32) % 5 == 0 { None } else { Some((Some((l - r).abs()), Some(l * 100.0 + r))) }
@@ -29,6 +31,12 @@ mod verif_probe_distances_c10 {
             pair_value(mq.candidate_observation.0.unwrap(), mq.track_observation.0.unwrap())
         }
         fn optimize(&mut self, _c: u64, _h: &[u64], _a: &mut DAttrs, _o: &mut Vec<Observation<f32>>, _p: usize, _m: bool) -> Result<()> { Ok(()) }
+        fn postprocess_distances(&self, unfiltered: Vec<ObservationMetricOk<f32>>) -> Vec<ObservationMetricOk<f32>> {
+            if !self.best_only { return unfiltered; }
+            let mut best: Option<ObservationMetricOk<f32>> = None;
+            for r in unfiltered { if best.as_ref().map(|b| r.feature_distance.unwrap() < b.feature_distance.unwrap()).unwrap_or(true) { best = Some(r); } }
+            best.into_iter().collect()
+        }
     }
     type S = TrackStore<DAttrs, DMetric, f32, NoopNotifier>;
     type T = Track<DAttrs, DMetric, f32, NoopNotifier>;
@@ -52,7 +60,7 @@ mod verif_probe_distances_c10 {
     fn key(from: u64, to: u64, a: Option<f32>, f: Option<f32>) -> R { (from, to, a.map(|x| x.to_bits()).unwrap_or(1), f.map(|x| x.to_bits()).unwrap_or(1)) }
 
     /// the contract: expected multiset of results and number of error reports for candidates `cands` against `stored`
-    fn expected(cands: &[Spec], stored: &[Spec], class: usize, only_baked: bool, skip_pairs_among: &[u64]) -> (Vec<R>, usize) {
+    fn expected(cands: &[Spec], stored: &[Spec], class: usize, only_baked: bool, skip_pairs_among: &[u64], best_only: bool) -> (Vec<R>, usize) {
         let (mut ok, mut errs) = (vec![], 0usize);
         for c in cands { for s in stored {
             if c.id == s.id { continue; }
@@ -60,7 +68,10 @@ mod verif_probe_distances_c10 {
             if only_baked && s.status != 0 { continue; }
             if c.group != s.group { continue; }
             if c.obs[class].is_empty() || s.obs[class].is_empty() { errs += 1; continue; }
-            for l in &c.obs[class] { for r in &s.obs[class] { if let Some((a, f)) = pair_value(*l, *r) { ok.push(key(c.id, s.id, a, f)); } } }
+            let mut pair: Vec<(Option<f32>, Option<f32>)> = vec![];
+            for l in &c.obs[class] { for r in &s.obs[class] { if let Some((a, f)) = pair_value(*l, *r) { pair.push((a, f)); } } }
+            if best_only { pair.sort_by(|x, y| x.1.unwrap().partial_cmp(&y.1.unwrap()).unwrap()); pair.truncate(1); }
+            for (a, f) in pair { ok.push(key(c.id, s.id, a, f)); }
         } }
         ok.sort();
         (ok, errs)
@@ -83,15 +94,15 @@ mod verif_probe_distances_c10 {
             let stored: Vec<Spec> = (0..n).map(|i| gen(1 + i as u64)).collect();
             let mut cands: Vec<Spec> = (0..1 + it % 3).map(|i| gen(100 + i as u64)).collect();
             if n > 0 && it % 2 == 0 { cands[0].id = stored[0].id; } // an external candidate that shares its id with a stored track: never paired with it
-            for only_baked in [false, true] { for class in 0..2usize {
-                let mut s: S = TrackStore::new(DMetric, DAttrs::default(), NoopNotifier, shards);
+            for only_baked in [false, true] { for class in 0..2usize { for best_only in [false, true] {
+                let mut s: S = TrackStore::new(DMetric { best_only }, DAttrs::default(), NoopNotifier, shards);
                 for sp in &stored { let t = mk(&s, sp); s.add_track(t).unwrap(); }
-                let ctx = format!("PROBE input: distances iteration={} shards={} only_baked={} class={} stored={:?} candidates={:?}", it, shards, only_baked, class, stored, cands);
+                let ctx = format!("PROBE input: distances iteration={} shards={} only_baked={} class={} best_pair_postprocess={} stored={:?} candidates={:?}", it, shards, only_baked, class, best_only, stored, cands);
                 // ---- external candidates
                 let (ok, err) = s.foreign_track_distances(cands.iter().map(|c| mk(&s, c)).collect(), class as u64, only_baked);
                 let mut got: Vec<R> = ok.all().into_iter().map(|r| key(r.from, r.to, r.attribute_metric, r.feature_distance)).collect(); got.sort();
                 let errs = err.all();
-                let (want, want_errs) = expected(&cands, &stored, class, only_baked, &[]);
+                let (want, want_errs) = expected(&cands, &stored, class, only_baked, &[], best_only);
                 cases += 1; if want.len() > 3 { nontrivial += 1; }
                 if got.iter().any(|r| r.0 == r.1) { failures.push(format!("{}: distances.never_pairs_a_track_with_itself", ctx)); }
                 if got != want { failures.push(format!("{}: distances.exactly_one_result_per_valued_pair_over_compatible_{}tracks: got {} results, expected {} (first difference: {:?})", ctx, if only_baked { "ready_" } else { "" }, got.len(), want.len(),
@@ -115,17 +126,17 @@ mod verif_probe_distances_c10 {
                     let _ = err.all();
                     // pairs among the owned candidates themselves depend on whether a worker runs before the tracks are put back
                     got.retain(|r| !(owned_ids.contains(&r.0) && owned_ids.contains(&r.1))); got.sort();
-                    let (want, _) = expected(&owned_specs, &stored, class, only_baked, &owned_ids);
+                    let (want, _) = expected(&owned_specs, &stored, class, only_baked, &owned_ids, best_only);
                     cases += 1;
                     if got != want { failures.push(format!("{}: distances.owned_candidates_compared_with_every_other_stored_track: owned={:?} got {} results, expected {}", ctx, owned_ids, got.len(), want.len())); }
                     if snapshot(&s) != before || s.shard_stats().iter().sum::<usize>() != n { failures.push(format!("{}: distances.owned_query_leaves_the_store_unchanged: owned={:?}", ctx, owned_ids)); }
                 }
-            } }
+            } } }
             if failures.len() > 60 { break; }
         }
         eprintln!("PROBE cases={} nontrivial={}", cases, nontrivial);
         for f in failures.iter().take(12) { eprintln!("{}", f); }
-        assert!(nontrivial > 300, "PROBE generator degenerate");
         assert!(failures.is_empty(), "PROBE found {} failing inputs; first: {}", failures.len(), failures[0]);
+        assert!(nontrivial > 300, "PROBE generator degenerate");
     }
 }
